@@ -68,6 +68,16 @@ def enumerate_cases(tier, scope):
         for tail in ([], [['step', 'b']], [['step', 'a'], ['return', 9]]):
             for beh in behaviours:
                 yield {'outline': [first] + tail, 'behaviour': beh}
+    # the chain runs on a loop of its own and waits for processes it launches from its steps
+    child = {'steps': [{'async': True, 'body': [['yield'], ['out', 'c', 1]], 'ret': ['value', 5]}]}
+    own = [
+        {'rets': {'a': [7]}, 'tocontext': {'a': [{'ka': ['child', child]}], 'b': [{'kb': ['done', 2]}]}, 'preds': {'p': [True, False], 'q': [True], 'r': [True]}},
+        {'rets': {'a': [{'__tc__': {'kr': ['child', child]}}], 'b': [None, 8]}, 'preds': {'p': [True, True, False], 'q': [True, False], 'r': [True]}},
+    ]
+    for first in instrs[:: max(1, len(instrs) // 40)]:
+        for tail in ([], [['step', 'a'], ['step', 'b']]):
+            for beh in own + behaviours[:2]:
+                yield {'outline': [first] + tail, 'behaviour': beh, 'own_loop': True}
 
 
 @st.composite
@@ -118,7 +128,13 @@ def _cases(draw, tier):
         # steps that also register (already completed) awaitables through to_context(): the denoted program is the same,
         # in particular a value returned by such a step still is the result
         behaviour['tocontext'] = {name: [{'k' + name: ['done', i]} for i in range(draw(st.integers(1, 3)))] for name in draw(st.lists(st.sampled_from(STEP_NAMES), min_size=1, max_size=3, unique=True))}
-    return {'outline': outline, 'behaviour': behaviour}
+    case = {'outline': outline, 'behaviour': behaviour}
+    if draw(st.integers(0, 3)) == 0:
+        case['own_loop'] = True
+        if draw(st.booleans()):
+            child = {'steps': [{'async': True, 'body': [['yield']], 'ret': ['value', 5]}]}
+            behaviour.setdefault('tocontext', {})[draw(st.sampled_from(STEP_NAMES))] = [{'kc': ['child', child]}]
+    return case
 
 
 def strategy(tier):
@@ -126,12 +142,16 @@ def strategy(tier):
 
 
 # ---------------------------------------------------------------------------------------------
-def run_workchain(outline, behaviour, resumes=None):
+def run_workchain(outline, behaviour, resumes=None, own_loop=False):
     """Run the generated workchain to completion; returns (calls, summary)."""
+    import contextlib
+
     cls = wc.make_workchain(outline, behaviour)
-    case = {'program': {'steps': []}, 'schedule': []}
+    case = {'program': {'steps': []}, 'schedule': [], 'decoy_loop': own_loop}
     with Exec(case, attach_listener=False) as ex:
-        with ex.loop.as_running():
+        # own_loop: the chain is given a loop of its own that is not the thread's default loop, and is constructed while
+        # no loop runs; the processes it launches have to run on that loop too
+        with contextlib.nullcontext() if own_loop else ex.loop.as_running():
             proc = cls(pid=1, loop=ex.loop)
         ex.attach(proc)
         ex.sample('start')
@@ -156,7 +176,9 @@ def execute(case):
 
     outline, behaviour = case['outline'], case['behaviour']
     exp_calls, exp_result, last_tc = model.interpret(outline, behaviour)
-    calls, views, escapes = run_workchain(outline, behaviour)
+    calls, views, escapes = run_workchain(outline, behaviour, own_loop=bool(case.get('own_loop')))
+    if case.get('own_loop') and views.get('decoy_scheduled'):
+        v('left-its-loop', f"{views['decoy_scheduled']} callback(s) were scheduled on the thread's default loop instead of the loop the chain was given")
     if calls != exp_calls:
         n = next((i for i, (a, b) in enumerate(zip(calls, exp_calls)) if a != b), min(len(calls), len(exp_calls)))
         v('call-order', f'first difference at call {n}: executed {calls[n:n+3]} expected {exp_calls[n:n+3]} (lengths {len(calls)}/{len(exp_calls)})')
